@@ -23,7 +23,7 @@ from typing import Any
 
 from .. import core
 from . import minieval
-from .calstub import WEEKDAY, _format, _shift
+from .calstub import WEEKDAY, WEEKDAYS, _format, _shift
 from .minieval import ClassStub, Obj, Stub
 
 O = _dt.timedelta(hours=2)          # offset before the transition
@@ -192,7 +192,7 @@ class World:
             del prim["add"], prim["subtract"]
         return Obj(_methods=self.meths if own else {}, _props=self.props if own else set(), _ctor=self.ctor,
                    _natives={}, _date=d, _wall=None, _eqkey=(d.toordinal(), 0), _types=(_dt.date,), **({k: v for k, v in self.class_fields.items()} if own else {}),
-                   year=d.year, month=d.month, day=d.day, day_of_week=d.weekday(), quarter=(d.month - 1) // 3 + 1,
+                   year=d.year, month=d.month, day=d.day, day_of_week=WEEKDAYS[d.weekday()], quarter=(d.month - 1) // 3 + 1,
                    days_in_month=_calendar.monthrange(d.year, d.month)[1], format=lambda f, *a, **k: _format(d, f),
                    weekday=d.weekday, isoweekday=d.isoweekday, toordinal=d.toordinal, **prim)
 
@@ -234,7 +234,7 @@ class World:
         me = Obj(_methods=self.meths if own else {}, _props=self.props if own else set(), _ctor=self.ctor,
                  _natives={}, _wall=w, _date=w.date(), _eqkey=(w,), _types=(_dt.datetime,), **({k: v for k, v in self.class_fields.items()} if own else {}),
                  year=w.year, month=w.month, day=w.day, hour=w.hour, minute=w.minute, second=w.second, microsecond=w.microsecond, fold=fold,
-                 day_of_week=w.weekday(), quarter=(w.month - 1) // 3 + 1, days_in_month=_calendar.monthrange(w.year, w.month)[1],
+                 day_of_week=WEEKDAYS[w.weekday()], quarter=(w.month - 1) // 3 + 1, days_in_month=_calendar.monthrange(w.year, w.month)[1],
                  tz=zone, tzinfo=zone, timezone=zone, timezone_name=getattr(zone, "name", ""),
                  set=set_, replace=replace, on=on, at=at, **({} if (own and self.interpret_add) else dict(add=add, subtract=subtract)),
                  utcoffset=lambda: wd.offset(w, fold), naive=lambda: Stub(_eqkey=(w,), _wall=w),
